@@ -35,8 +35,9 @@ def judgeAliasHist (d : DictRt) (a : Bytes) (nlater : Nat) (mode : String) (impl
   let safe := views.isEmpty || body.length > 1024 || !cfg.bodyPooled
   let implOut := " ".intercalate impl
   -- with views into a pooled buffer the outcome depends on sync.Pool's choice: the model admits both
-  let model := if safe then " ".intercalate (List.replicate nlater "same") else implOut
-  let fails := if impl.any (· = "changed") then ["C06:retained-message-changed-after-later-reads"] else []
+  let model := if safe then " ".intercalate ("w:same" :: List.replicate nlater "same") else implOut
+  let fails := (if impl.any (· = "changed") then ["C06:retained-message-changed-after-later-reads"] else []) ++
+    (if impl.any (· = "w:changed") then ["C06:retained-message-changed-by-writing-or-serialising-it"] else [])
   { model := model, fails := fails,
     tags := [s!"hist g={mode} later={nlater} views={views.length} big={decide (body.length > 1024)}"] }
 
